@@ -291,27 +291,55 @@ def rule_C(ck, units):
               '' if ok else 'own_data is cleared in %s although the object does not take over existing arrays there (no ptr / col / val member is set from borrowed storage): its arrays are never freed' % f.q)
 
 
+def _member_elem_writes(f):
+    """assignments  M(i, j) = ..  /  M[i] = ..  to a data member M of *this"""
+    out = []
+    for n in f.nodes.values():
+        if n['k'] == 'bin' and n['op'] == '=':
+            lhs = unwrap(n['x'])
+            base = None
+            if lhs is not None and lhs['k'] == 'call' and lhs.get('op') == '()' and lhs.get('obj') is not None:
+                base = unwrap(lhs['obj'])
+            elif lhs is not None and lhs['k'] == 'idx':
+                base = unwrap(lhs['b'])
+            if base is not None and base['k'] == 'mem' and (base.get('b') is None or unwrap(base['b'])['k'] == 'this'):
+                out.append((n, base['n']))
+    return out
+
+
 def rule_D(ck, units):
-    """sibling agreement: block_matrix_adapter::row_iterator selects the next block column and gathers the block
-    in its constructor and in operator++ with the same code"""
+    """sibling agreement: an adapter iterator that gathers its current value from several underlying rows does so in its constructor
+    (first value) and in operator++ (every later value): both must select the next column and gather the entries with the same code.
+    The class is found by its shape (constructor and operator++ both fill a data member element by element), not by its name."""
     import json
     import c02
-    ck.rule('D.block-iterator-siblings', 'the constructor and operator++ of adapter::block_matrix_adapter::row_iterator use the same next-column selection and the same block gathering', 1)
+    ck.rule('D.block-iterator-siblings', 'in an adapter row iterator that gathers a block from several scalar rows, the constructor and operator++ use the same next-column selection and the same block gathering', 1)
     done = set()
     for u in units.values():
         by = {}
         for f in u.funcs:
-            if f.cls == 'amgcl::adapter::block_matrix_adapter::row_iterator' and (f.j.get('ctor') or f.q.endswith('operator++')):
+            if f.cls and f.cls.startswith('amgcl::adapter::') and (f.j.get('ctor') or f.q.endswith('operator++')) and f.body is not None and _member_elem_writes(f):
                 by.setdefault(f.clsfull, {})['ctor' if f.j.get('ctor') else 'inc'] = f
         for clsfull, d in by.items():
-            if 'ctor' not in d or 'inc' not in d or 'x' in done:
+            if 'ctor' not in d or 'inc' not in d:
                 continue
-            done.add('x')
+            cls = d['ctor'].cls
+            if cls in done:
+                continue
+            done.add(cls)
             frs = {}
             for nm, f in d.items():
-                sel = [n for n in f.nodes.values() if n['k'] == 'if' and show(n['c']).startswith('base[')]
-                gat = [n for n in f.nodes.values() if n['k'] == 'for' and any(x['k'] == 'bin' and x['op'] == '=' and show(x['x']).startswith('cur_val(') for x in walk(n['b']))
-                       and not any(a['k'] == 'for' and any(x['k'] == 'bin' and x['op'] == '=' and show(x['x']).startswith('cur_val(') for x in walk(a['b'])) and a is not n for a in walk(n['b']))]
+                ws = [n for n, m in _member_elem_writes(f)]
+                # the gathering loops: outermost loops that contain the element writes
+                gat = []
+                for w in ws:
+                    loops = [a for a in f.ancestors(w) if a['k'] in ('for', 'while')]
+                    if loops and loops[-1] not in gat:
+                        gat.append(loops[-1])
+                gids = {x['i'] for g in gat for x in walk(g)}
+                # the selection of the next column: if-statements outside the gathering loops whose condition tests an element of a member array
+                sel = [n for n in f.nodes.values() if n['k'] == 'if' and n['i'] not in gids
+                       and any(x['k'] == 'idx' and unwrap(x['b']) is not None and unwrap(x['b'])['k'] == 'mem' for x in walk(n['c']))]
                 frs[nm] = (json.dumps([c02.norm_tree(f, x, {}) for x in sel], sort_keys=True), json.dumps([c02.norm_tree(f, x, {}) for x in gat], sort_keys=True), len(sel), len(gat))
             a, b = frs['ctor'], frs['inc']
             dets = []
@@ -319,7 +347,7 @@ def rule_D(ck, units):
                 dets.append('the selection of the next block column differs between the constructor and operator++')
             if a[1] != b[1] or a[3] == 0:
                 dets.append('the gathering of the block values differs between the constructor and operator++')
-            ck.ob('D.block-iterator-siblings', 'amgcl::adapter::block_matrix_adapter::row_iterator', d['inc'].where(), not dets, '; '.join(dets))
+            ck.ob('D.block-iterator-siblings', cls, d['inc'].where(), not dets, '; '.join(dets))
 
 
 BLOCK_ADAPTER_CALLERS_SORTED = {
